@@ -139,7 +139,10 @@ def get_next_imf(X, env_step_size=1, max_iters=1000, energy_thresh=None,
 
         # If upper or lower are None we should stop sifting altogether
         if upper is None or lower is None:
-            continue_flag = False
+            # The overall sift is only finished if the input itself has no
+            # extrema, otherwise the removed local means are still to be sifted
+            if niters == 1:
+                continue_flag = False
             continue_imf = False
             logger.debug('Finishing sift: IMF has no extrema')
             continue
